@@ -32,6 +32,8 @@ class LogSimulation(Simulation):
         L.ev("A", [[ag.vid, list(acts)] for ag, acts in allActions.items()])
 
     def step(self):
+        if self.currentTime >= STEP_GUARD:
+            raise Hang()
         L.ev("X", self.currentTime)
 
     def getProperties(self, obj, properties):
@@ -76,8 +78,12 @@ def settle():
     return dirty
 
 
-class Hang(Exception):
-    pass
+class Hang(BaseException):
+    """raised by the per-simulation guard (BaseException: no `except Exception` of the code under test swallows it)"""
+
+
+CPU_GUARD_S = 3.0      # CPU seconds (user + system) one simulation may use (a normal one needs milliseconds)
+STEP_GUARD = 64        # no generated run is longer (step limits <= 9, scenario limits <= 8)
 
 
 def on_alarm(signum, frame):
@@ -88,8 +94,12 @@ def run_one(scene, run):
     L.LOG.clear()
     L.TAB = run["tab"]
     out = dict()
-    signal.signal(signal.SIGALRM, on_alarm)
-    signal.alarm(6)
+    # Guard against a program that spins without yielding (e.g. an interrupt handler whose condition stays true and
+    # that takes no action).  NOT signal.alarm: Scenic's own `alarm(...)` context manager around every behavior /
+    # compose step re-installs the SIGALRM handler and cancels the pending alarm on exit, which silently disarmed
+    # an earlier wall-clock guard.  ITIMER_PROF counts the CPU time of this process and uses SIGPROF.
+    signal.signal(signal.SIGPROF, on_alarm)
+    signal.setitimer(signal.ITIMER_PROF, CPU_GUARD_S)
     try:
         sim = LogSimulator(run["perms"]).simulate(
             scene, maxSteps=run["max_steps"], timestep=run["timestep"], maxIterations=1,
@@ -106,12 +116,13 @@ def run_one(scene, run):
             out["records"] = {k: (v if not isinstance(v, list) else [list(x) for x in v]) for k, v in r.records.items()}
     except Hang:
         out["kind"] = "hang"
+        out["msg"] = f"guard: more than {CPU_GUARD_S} CPU seconds or {STEP_GUARD} steps in one simulation"
     except Exception as e:
         out["kind"] = type(e).__name__
         out["msg"] = str(e)[:300]
     finally:
-        signal.alarm(0)
-    out["events"] = [list(e) for e in L.LOG]
+        signal.setitimer(signal.ITIMER_PROF, 0)
+    out["events"] = [list(e) for e in (L.LOG[:400] if out["kind"] == "hang" else L.LOG)]
     import scenic.syntax.veneer as veneer
     # finalize the generators the simulation left behind first (finding F26: that can write a stale behavior into
     # veneer.currentBehavior, right away when the exception that ended the simulation is released, or later)
@@ -133,6 +144,11 @@ def main():
     scene (`scene: new`, always when the top-level scenario has requirements) or re-simulates the previous one."""
     payload = json.load(sys.stdin)
     results = []
+    # everything imported so far lives for the whole process: keep it out of the collections `settle` forces after
+    # every simulation (they only need to find the generators / frames the simulation abandoned)
+    import gc
+    gc.collect()
+    gc.freeze()
     for job in payload["jobs"]:
         res = dict(id=job["id"])
         settle()
